@@ -100,7 +100,7 @@ TApply == /\ IsEvent("Apply")
                    /\ broken' = ~(c1 /\ c2 /\ c3 /\ c4)
              /\ dq' = IF Len(dq) > 0 THEN Tail(dq) ELSE dq
              /\ UNCHANGED tid
-\* {"ev":"SessionCloses","s":n,"mf":[taken,resumed,E(meta)] or null}: at any time, for every flow of the world
+\* {"ev":"SessionCloses","s":n,"mf":[taken,resumed,E(meta)] or []}: at any time, for every flow of the world
 TClose == /\ IsEvent("SessionCloses")
           /\ IF broken THEN Skip ELSE
              /\ Env("open", Rec.s \notin closed)
